@@ -59,6 +59,17 @@ SPECS = [
          symbols={"mean": "real", "std_dev": "real", "n": "real"}, rules=[(None, "return mean + std_dev*n || from_zscore(self, n)")]),
     dict(name="Normal::from_zscore", fn="normal::Normal::<F>::from_zscore", kind="alg", self_ty="Normal", draws=[], params=["zscore"],
          symbols={"mean": "real", "std_dev": "real", "zscore": "real"}, rules=[(None, "return mean + std_dev*zscore")]),
+    dict(name="Normal::new", fn="normal::Normal::<F>::new", kind="alg", self_ty=None, draws=[], symbols={"mean": "real", "std_dev": "real"},
+         rules=[("call is_finite(std_dev)", "return Result_Ok(Normal(mean, std_dev))"), (None, "return Err")]),
+    dict(name="Normal::from_mean_cv", fn="normal::Normal::<F>::from_mean_cv", kind="alg", self_ty=None, draws=[], symbols={"mean": "real", "cv": "real"},
+         rules={"main": [("call is_finite(cv)", "goto c1"), (None, "return Err")], "c1": [("cv < 0", "return Err"), (None, "return Result_Ok(Normal(mean, cv*mean))")]}),
+    dict(name="LogNormal::new", fn="normal::LogNormal::<F>::new", kind="alg", self_ty=None, draws=[], symbols={"mu": "real", "sigma": "real"},
+         rules=[(None, "return Result_Ok(LogNormal(Normal_new(mu, sigma)))")]),
+    dict(name="LogNormal::from_mean_cv", fn="normal::LogNormal::<F>::from_mean_cv", kind="alg", self_ty=None, draws=[], symbols={"mean": "positive", "cv": "real"},
+         rules={"main": [("cv == 0", "goto zero"), (None, "goto c1")],
+                "zero": [("0 <= mean", "return Result_Ok(LogNormal(Normal_new(ln(mean), 0)))"), (None, "return Err")],
+                "c1": [("0 < mean", "goto c2"), (None, "return Err")],
+                "c2": [("0 <= cv", "return Result_Ok(LogNormal(Normal_new(ln(mean**2/(1 + cv**2))/2, sqrt(ln(1 + cv**2)))))"), (None, "return Err")]}),
     dict(name="LogNormal::sample", fn="<normal::LogNormal<F> as " + D, kind="alg", self_ty="LogNormal", draws=[],
          symbols={"sample_norm": "real"}, rules=[(None, "return exp(sample_norm)")]),
     dict(name="Exp::new", fn="exponential::Exp::<F>::new", kind="ctor", struct="Exp", params=["lambda"], rename={"lambda": "lam"},
@@ -95,8 +106,52 @@ SPECS = [
          rules=[(None, "return sample_beta*prange + pmin")]),
     # ------------------------------------------------------------------ ChiSquared
     dict(name="ChiSquared::sample", fn="<chi_squared::ChiSquared<F> as " + D, kind="alg", self_ty="ChiSquared", draws=[("StandardNormal", "n")],
-         symbols={"n": "real"}, variant_rules={"DoFExactlyOne": "return n**2", "DoFAnythingElse": "return sample_payload"}),
+         symbols={"n": "real"}, variant_rules={"DoFExactlyOne": "return n**2", "DoFAnythingElse": "return sample_repr_DoFAnythingElse_0"}),
+    # ------------------------------------------------------------------ Beta (Cheng 1978, algorithms BB and BC)
+    "@BETA_NEW@",
+    dict(name="Beta::sample", fn="<beta::Beta<F> as " + D, kind="alg", self_ty="Beta", draws=[("Open01", "u1"), ("Open01", "u2")],
+         symbols={"a": "positive", "b": "positive", "alpha": "positive", "beta": "positive", "gamma": "positive", "kappa1": "real", "kappa2": "positive",
+                  "u1": "positive", "u2": "positive"},
+         variants={
+             "BB": dict(rename={"algorithm_BB_0_alpha": "alpha", "algorithm_BB_0_beta": "beta", "algorithm_BB_0_gamma": "gamma"},
+                        let={"v": "beta*ln(u1/(1 - u1))", "w": "a*exp(beta*ln(u1/(1 - u1)))", "z": "u1**2*u2", "r": "gamma*beta*ln(u1/(1 - u1)) - ln(4)",
+                             "s": "a + gamma*beta*ln(u1/(1 - u1)) - ln(4) - a*exp(beta*ln(u1/(1 - u1)))"},
+                        rules={"main": [("5*z <= s + 1 + ln(5)", "goto accept"), ("ln(z) <= s", "goto accept"),
+                                        ("r + alpha*ln(alpha/(b + w)) < ln(z)", "continue"), (None, "goto accept")],
+                               "accept": [("flag switched_params", "return b/(b + w)"), ("w == oo", "return 1"), (None, "return w/(b + w)")]}),
+             "BC": dict(rename={"algorithm_BC_0_alpha": "alpha", "algorithm_BC_0_beta": "beta", "algorithm_BC_0_kappa1": "kappa1", "algorithm_BC_0_kappa2": "kappa2"},
+                        let={"v": "beta*ln(u1/(1 - u1))", "w": "a*exp(beta*ln(u1/(1 - u1)))", "z": "u1**2*u2"},
+                        rules={"main": [("u1 < Rational(1,2)", "goto low"), (None, "goto high")],
+                               "low": [("kappa1 <= u2/4 + z - u1*u2", "continue"), (None, "goto step5")],
+                               "high": [("z <= Rational(1,4)", "goto accept"), ("kappa2 <= z", "continue"), (None, "goto step5")],
+                               "step5": [("alpha*(ln(alpha/(b + w)) + v) - ln(4) < ln(z)", "continue"), (None, "goto accept")],
+                               "accept": [("flag switched_params", "return b/(b + w)"), ("w == oo", "return 1"), (None, "return w/(b + w)")]}),
+         }),
 ]
+
+
+def _beta_new_spec():
+    def bb(a, b, sw):
+        al = "(%s + %s)" % (a, b)
+        be = "sqrt((%s - 2)/(2*%s*%s - %s))" % (al, a, b, al)
+        return "Result_Ok(Beta(%s, %s, %s, BetaAlgorithm_BB(BB(%s, %s, %s + 1/%s))))" % (a, b, sw, al, be, a, be)
+
+    def bc(a, b, sw):
+        # called with a = the larger, b = the smaller parameter
+        al = "(%s + %s)" % (a, b)
+        be = "(1/%s)" % b
+        de = "(1 + %s - %s)" % (a, b)
+        k1 = "%s*(Rational(1,72) + Rational(1,24)*%s)/(%s*%s - Rational(7,9))" % (de, b, a, be)
+        k2 = "Rational(1,4) + (Rational(1,2) + Rational(1,4)/%s)*%s" % (de, b)
+        return "Result_Ok(Beta(%s, %s, %s, BetaAlgorithm_BC(BC(%s, %s, %s, %s))))" % (a, b, sw, al, be, k1, k2)
+    return dict(name="Beta::new", fn="beta::Beta::<F>::new", kind="alg", self_ty=None, draws=[], rename={"alpha": "a0", "beta": "b0"},
+                symbols={"a0": "positive", "b0": "positive"},
+                rules={"main": [("0 < a0", "goto c2"), (None, "return Err")],
+                       "c2": [("0 < b0", "goto c3"), (None, "return Err")],
+                       "c3": [("a0 < b0", "goto ab"), (None, "goto ba")],
+                       # a0 < b0: a = a0 (min), b = b0; BB when a > 1, otherwise BC with the roles exchanged (a = max) and the flag flipped
+                       "ab": [("1 < a0", "return " + bb("a0", "b0", "0")), (None, "return " + bc("b0", "a0", "1"))],
+                       "ba": [("1 < b0", "return " + bb("b0", "a0", "1")), (None, "return " + bc("a0", "b0", "0"))]})
 
 
 class NoForm(Exception):
@@ -125,6 +180,9 @@ def frac_of(v):
 
 BINOPS = {"add": "+", "sub": "-", "mul": "*", "div": "/"}
 FUN1 = {"ln": "ln", "exp": "exp", "sqrt": "sqrt", "tan": "tan", "abs": "Abs"}
+
+
+SPECS = [(_beta_new_spec() if x == "@BETA_NEW@" else x) for x in SPECS]
 
 
 class Namer:
@@ -159,32 +217,54 @@ class Namer:
                 self.params[nm] = self.rename.get(nm, nm)
 
     def field_path(self, t):
-        """('field', ('field', ('var','self'), i), j) -> 'a_b' using declared field names; None if not a field path of self."""
-        idx = []
+        """A place inside *self as a name: declared field names joined by '_', enum downcasts by their variant name
+        (self.algorithm as BB).0.alpha -> 'algorithm_BB_0_alpha'.  None if the term is not such a place."""
+        steps = []
         cur = t
         while isinstance(cur, tuple) and cur and cur[0] in ("field", "proj"):
             if cur[0] == "field":
-                idx.append(cur[2])
+                steps.append(("f", cur[2]))
+            elif str(cur[2]).startswith("downcast:"):
+                steps.append(("d", cur[2].split(":", 1)[1]))
             cur = cur[1]
         if cur != ("var", "self") or self.self_ty is None:
             return None
         ty = self.self_ty
+        variant = 0
         names = []
-        for i in reversed(idx):
-            if ty is None or ty["k"] != "adt" or not ty["variants"] or not isinstance(i, int) or i >= len(ty["variants"][0]["fields"]):
+        for kind, x in reversed(steps):
+            if ty is None or ty["k"] != "adt" or not ty["variants"]:
                 return None
-            f = ty["variants"][0]["fields"][i]
-            names.append(f.get("name", str(i)))
-            ty = self.F.types[f["ty"]]
+            if kind == "d":
+                idx = [i for i, v in enumerate(ty["variants"]) if v["name"] == x]
+                if not idx:
+                    return None
+                variant = idx[0]
+                names.append(x)
+                continue
+            fs = ty["variants"][variant]["fields"]
+            if not isinstance(x, int) or x >= len(fs):
+                return None
+            names.append(fs[x].get("name", str(x)))
+            ty = self.F.types[fs[x]["ty"]]
+            variant = 0
         return "_".join(names)
 
     def sym(self, t):
         k = t[0]
         if k == "const":
             v = t[1]
-            if isinstance(v, bool) or not isinstance(v, (int, float)):
+            if isinstance(v, bool):
+                return "1" if v else "0"
+            if not isinstance(v, (int, float)):
                 raise NoForm("constant %r" % (v,))
             return frac_of(v)
+        if k == "agg" and isinstance(t[1], str) and t[1].startswith("adt:"):
+            adt = t[1][4:]
+            if adt == "Result" and t[2] == "Err":
+                return "Err"            # the error payload is C04's subject
+            fname = adt if not t[2] or t[2] == adt else "%s_%s" % (adt, t[2])
+            return "%s(%s)" % (fname, ", ".join(self.sym(x) for x in t[3:]))
         if k == "var":
             if t[1] == "self":
                 return "self"
@@ -194,7 +274,7 @@ class Namer:
             if nm is None:
                 raise NoForm("a draw from %s that the reference algorithm does not make" % t[1])
             return nm
-        if k == "field" and t[2] == 0 and isinstance(t[1], tuple) and t[1][0] == "proj" and t[1][2] == "downcast" and isinstance(t[1][1], tuple) \
+        if k == "field" and t[2] == 0 and isinstance(t[1], tuple) and t[1][0] == "proj" and str(t[1][2]).startswith("downcast") and isinstance(t[1][1], tuple) \
                 and t[1][1][0] == "call" and t[1][1][1] == "branch":
             return self.sym(t[1][1][2])          # the Ok payload of `expr?`
         if k in ("field", "proj"):
@@ -218,6 +298,10 @@ class Namer:
                 return "((%s)**(%s))" % (self.sym(args[0]), self.sym(args[1]))
             if name == "recip" and len(args) == 1:
                 return "(1/(%s))" % self.sym(args[0])
+            if name == "from_residual":
+                return "Err"
+            if name == "not" and len(args) == 1:
+                return "(1 - (%s))" % self.sym(args[0])
             if name == "max" and len(args) == 2:
                 return "Max(%s, %s)" % (self.sym(args[0]), self.sym(args[1]))
             if name == "min" and len(args) == 2:
@@ -228,6 +312,10 @@ class Namer:
                 return "1"
             if name in ("zero",) and not args:
                 return "0"
+            if name == "infinity" and not args:
+                return "oo"
+            if name == "neg_infinity" and not args:
+                return "(-oo)"
             if name in ("unwrap", "clone", "into", "expect", "map_err", "branch") and args:
                 return self.sym(args[0])
             if name == "from" and args:
@@ -334,7 +422,7 @@ def run(chk, F, tier):
                 build_ctor_jobs(chk, F, inst, spec, key, where, jobs, ctx)
             else:
                 build_alg_jobs(chk, F, inst, spec, key, where, jobs, ctx)
-    chk.floor("sampler / constructor instances compared with their reference", nfun, 38)
+    chk.floor("sampler / constructor instances compared with their reference", nfun, 50)
     if not jobs:
         return
     r = subprocess.run(["python3-vt", os.path.join(HERE, "symcheck.py")], input=json.dumps(jobs), stdout=subprocess.PIPE, stderr=subprocess.PIPE, text=True, timeout=2400)
@@ -345,7 +433,7 @@ def run(chk, F, tier):
     ndec = 0
     for key, c in sorted(ctx.items()):
         ndec += judge(chk, key, c, res)
-    chk.floor("functions judged (decided, or explicitly reported as not decided)", ndec + sum(1 for u_ in chk.unproved if u_["rule"] in ("algorithm", "constructor")), 38)
+    chk.floor("functions judged (decided, or explicitly reported as not decided)", ndec + sum(1 for u_ in chk.unproved if u_["rule"] in ("algorithm", "constructor")), 50)
 
 
 def build_ctor_jobs(chk, F, inst, spec, key, where, jobs, ctx):
@@ -388,51 +476,182 @@ def build_ctor_jobs(chk, F, inst, spec, key, where, jobs, ctx):
     ctx[key] = c
 
 
+def compile_rules(rules, let):
+    """rules: list (single decision list) or dict name -> list with outcomes `continue`, `return X [|| Y]`, `goto name`.
+    -> (atoms [(kind, a, b)], lists {name: [(atom index | None, outcome)]})"""
+    if isinstance(rules, list):
+        rules = {"main": rules}
+    atoms, lists = [], {}
+    for name, lst in rules.items():
+        out = []
+        for cond, outcome in lst:
+            if cond is None:
+                out.append((None, outcome))
+                continue
+            if cond.startswith("flag "):
+                a = ("flag", cond[5:].strip(), "1")
+            elif cond.startswith("call "):
+                m_ = re.match(r"call\s+(\w+)\((.*)\)\s*$", cond)
+                a = ("call:" + m_.group(1), subst_let(m_.group(2).strip(), let), "1")
+            else:
+                kind, x, y = parse_rule_cond(cond)
+                a = (kind if kind == "eq" else "lt", subst_let(x, let), subst_let(y, let))
+            if a not in atoms:
+                atoms.append(a)
+            out.append((atoms.index(a), outcome))
+        lists[name] = out
+    return atoms, lists
+
+
+def spec_eval(lists, assign, let):
+    name = "main"
+    for _ in range(20):
+        for a_i, outcome in lists[name]:
+            if a_i is None or assign[a_i]:
+                if outcome == "continue":
+                    return "continue"
+                if outcome.startswith("goto "):
+                    name = outcome[5:].strip()
+                    break
+                return frozenset(subst_let(alt.strip(), let) for alt in outcome[len("return "):].split(" || "))
+        else:
+            return None
+    return None
+
+
 def build_alg_jobs(chk, F, inst, spec, key, where, jobs, ctx):
     summ = algsum.summarize(F, inst)
-    draws = collect_draws(summ)
+    if "variants" in spec:
+        # one case per enum variant: the paths that carry the literal `variant == name`
+        cases = []
+        for vname, vs in spec["variants"].items():
+            sub = dict(spec)
+            sub.update(vs)
+            sub["rename"] = dict(spec.get("rename", {}), **vs.get("rename", {}))
+            sub["symbols"] = dict(spec.get("symbols", {}), **vs.get("symbols", {}))
+            cases.append((vname, sub))
+    else:
+        cases = [(None, spec)]
+    for vname, sp in cases:
+        ckey = key if vname is None else "%s|%s" % (key, vname)
+        paths = []
+        for p in summ["paths"]:
+            vl = [l for l in p["lits"] if l and l[0] == "variant"]
+            if vname is None:
+                paths.append(p)
+                continue
+            nm0 = Namer(F, inst, sp, [])
+            for (_, place, idx) in vl:
+                ty = None
+                fp = nm0.field_path(place) if place else None
+                # the enum type of the place
+                tcur = nm0.self_ty
+                ok_t = True
+                steps = []
+                cur = place
+                while isinstance(cur, tuple) and cur and cur[0] in ("field", "proj"):
+                    if cur[0] == "field":
+                        steps.append(cur[2])
+                    cur = cur[1]
+                for x in reversed(steps):
+                    if tcur is None or tcur["k"] != "adt" or not tcur["variants"] or not isinstance(x, int) or x >= len(tcur["variants"][0]["fields"]):
+                        ok_t = False
+                        break
+                    tcur = F.types[tcur["variants"][0]["fields"][x]["ty"]]
+                if ok_t and tcur and tcur["k"] == "adt" and isinstance(idx, int) and idx < len(tcur["variants"]) and tcur["variants"][idx]["name"] == vname:
+                    paths.append(p)
+        build_case(chk, F, inst, sp, ckey, where, jobs, ctx, summ, paths)
+
+
+def used_atoms(paths):
+    out = []
+    for p in paths:
+        for lit in p["lits"]:
+            if lit and lit[0] != "variant" and lit[0] not in out:
+                out.append(lit[0])
+    return sorted(out)
+
+
+def _is_try_break(p):
+    """A path that leaves through the error arm of `expr?` (ControlFlow::Break of `branch(..)`): error propagation, not part of the algorithm."""
+    for lit in p["lits"]:
+        if lit and lit[0] == "variant" and isinstance(lit[1], tuple) and lit[1][:2] == ("call", "branch") and lit[2] == 1:
+            return True
+    return False
+
+
+def build_case(chk, F, inst, spec, key, where, jobs, ctx, summ, paths):
+    paths = [p for p in paths if not _is_try_break(p)]
+    sub = {"atoms": summ["atoms"], "paths": paths}
+    draws = collect_draws({"atoms": [summ["atoms"][i] for i in used_atoms(paths)], "paths": paths})
     nm = Namer(F, inst, spec, draws)
     let = spec.get("let", {})
-    c = {"kind": "alg", "spec": spec, "where": where, "summ": summ, "undecided": [], "atoms": {}, "rets": {}, "problems": []}
+    c = {"kind": "alg", "spec": spec, "where": where, "summ": sub, "undecided": [], "atoms": {}, "rets": {}, "problems": [], "let": let}
+    ctx[key] = c
+    if not paths:
+        c["problems"].append("no path of the implementation belongs to this case")
+        return
     if nm.unnamed or nm.missing:
         c["problems"].append("the draws differ from the reference: implementation draws %s, reference draws %s" % (
             [d[0] for d in draws], [k for k, _ in spec.get("draws", [])]))
-        ctx[key] = c
         return
     if "variant_rules" in spec:
         c["variant"] = True
         rets = sorted({o[len("return "):] for o in spec["variant_rules"].values()})
+        c["spec_atoms"], c["lists"] = [], {}
     else:
-        rules = spec["rules"]
-        spec_atoms = []
-        for cond, out in rules:
-            if cond is not None:
-                kind, a, b2 = parse_rule_cond(cond)
-                spec_atoms.append((kind, subst_let(a, let), subst_let(b2, let)))
-        c["spec_atoms"] = spec_atoms
-        rets = sorted({subst_let(alt.strip(), let) for _, o in rules if o.startswith("return ") for alt in o[len("return "):].split(" || ")})
+        c["spec_atoms"], c["lists"] = compile_rules(spec["rules"], let)
+        rets = sorted({subst_let(alt.strip(), let) for lst in c["lists"].values() for _, o in lst if o.startswith("return ") for alt in o[len("return "):].split(" || ")})
     c["spec_rets"] = rets
-    # implementation atoms
-    for i, (kind, a, b2, strict) in enumerate(summ["atoms"]):
+    for i in used_atoms(paths):
+        kind, a, b2, strict = summ["atoms"][i]
         try:
             if kind.startswith("call:"):
-                c["undecided"].append("boolean call %s" % kind)
+                arg = nm.sym(a)
+                cands = [k for k, sa in enumerate(c["spec_atoms"]) if sa[0] == kind and sa[1].replace(" ", "") == arg.replace(" ", "").strip("()")]
+                if not cands:
+                    cands = [k for k, sa in enumerate(c["spec_atoms"]) if sa[0] == kind and "(%s)" % sa[1].replace(" ", "") == arg.replace(" ", "")]
+                if cands:
+                    c["atoms"][i] = (None, "flag", arg, (cands[0], False))
+                else:
+                    c["problems"].append("the implementation tests %s(%s), the reference does not" % (kind[5:], arg))
                 continue
-            dterm = "(%s) - (%s)" % (nm.sym(a), nm.sym(b2))
+            if kind == "flag":
+                name = nm.sym(a)
+                cands = [k for k, sa in enumerate(c["spec_atoms"]) if sa[0] == "flag" and sa[1] == name]
+                if cands:
+                    c["atoms"][i] = (None, kind, name, (cands[0], False))
+                else:
+                    c["problems"].append("the implementation branches on the flag `%s`, the reference does not" % name)
+                continue
+            sa_, sb_ = nm.sym(a), nm.sym(b2)
         except NoForm as e:
             c["undecided"].append("comparison %d: %s" % (i, e))
             continue
         if "variant_rules" in spec:
-            c["problems"].append("a comparison (%s) in a sampler whose reference has none" % dterm[:80])
+            c["problems"].append("a comparison (%s vs %s) in a sampler whose reference has none" % (sa_[:60], sb_[:60]))
             continue
-        accepted = []
-        for (k2, sa, sb) in c["spec_atoms"]:
-            accepted.append("(%s) - (%s)" % (sa, sb))
-            accepted.append("(%s) - (%s)" % (sb, sa))
+        want_kind = "eq" if kind == "eq" else "lt"
+        accepted, back = [], []
+        inf_side = "oo" in (sa_, sb_) or "(-oo)" in (sa_, sb_)
+        for k, (k2, xa, xb) in enumerate(c["spec_atoms"]):
+            if k2 != want_kind:
+                continue
+            if inf_side:
+                if "oo" in (xa, xb):
+                    fin_s = xa if xb == "oo" else xb
+                    accepted.append(fin_s)
+                    back.append((k, False))
+                continue
+            accepted.append("(%s) - (%s)" % (xa, xb))
+            back.append((k, False))
+            accepted.append("(%s) - (%s)" % (xb, xa))
+            back.append((k, True))
+        dterm = (sa_ if sb_ in ("oo", "(-oo)") else sb_) if inf_side else "(%s) - (%s)" % (sa_, sb_)
         jid = "%s|atom|%d" % (key, i)
-        jobs.append({"id": jid, "symbols": spec["symbols"], "term": dterm, "accepted": accepted, "relative": True})
-        c["atoms"][i] = (jid, kind, dterm)
-    for pi_, p in enumerate(summ["paths"]):
+        jobs.append({"id": jid, "symbols": spec["symbols"], "term": dterm, "accepted": accepted or ["0*0 + 123456789"], "relative": True})
+        c["atoms"][i] = (jid, kind, dterm, back)
+    for pi_, p in enumerate(paths):
         if p["outcome"][0] == "return":
             try:
                 term = nm.sym(p["outcome"][1])
@@ -442,12 +661,11 @@ def build_alg_jobs(chk, F, inst, spec, key, where, jobs, ctx):
             jid = "%s|ret|%d" % (key, pi_)
             jobs.append({"id": jid, "symbols": spec["symbols"], "term": term, "accepted": rets, "relative": True})
             c["rets"][pi_] = (jid, term)
-    ctx[key] = c
 
 
 def judge(chk, key, c, res):
     spec = c["spec"]
-    name = spec["name"]
+    name = spec["name"] + (" [%s]" % key.split("|", 1)[1] if "|" in key else "")
     if c["kind"] == "ctor":
         bad, und = [], list(c["undecided"])
         for fname, jid in c["fields"]:
@@ -471,16 +689,19 @@ def judge(chk, key, c, res):
         return 1
     summ = c["summ"]
     und = list(c["undecided"])
+    conds = [("flag " + a[1]) if a[0] == "flag" else ("%s(%s)" % (a[0][5:], a[1]) if a[0].startswith("call:") else "%s %s %s" % (a[1], "==" if a[0] == "eq" else "<", a[2])) for a in c.get("spec_atoms", [])]
     # A: atom matching
     amap = {}
-    for i, (jid, kind, dterm) in c["atoms"].items():
+    for i, (jid, kind, dterm, back) in c["atoms"].items():
+        if jid is None:
+            amap[i] = back
+            continue
         v = res[jid]
         if v["verdict"] == "equal":
-            amap[i] = (v["form"] // 2, v["form"] % 2 == 1)      # spec atom index, swapped
+            amap[i] = back[v["form"]]
         elif v["verdict"] == "different":
-            chk.violation("algorithm", key + ":test", "%s decides on `%s %s 0`, which is not a test of the reference algorithm %s (%s)"
-                          % (name, v.get("term"), "<" if kind in ("lt",) else ("<=" if kind == "le" else "=="),
-                             [r_[0] for r_ in spec["rules"] if r_[0]], v["detail"]), where=c["where"])
+            chk.violation("algorithm", key + ":test", "%s decides on `%s %s`, which is not a test of the reference algorithm %s (%s)"
+                          % (name, v.get("term"), "== 0" if kind == "eq" else "< 0", [x[:70] for x in conds], v["detail"][:160]), where=c["where"])
             return 1
         else:
             und.append("comparison %d: %s" % (i, v["detail"]))
@@ -491,7 +712,7 @@ def judge(chk, key, c, res):
         if v["verdict"] == "equal":
             rmap[pi_] = c["spec_rets"][v["form"]]
         elif v["verdict"] == "different":
-            chk.violation("algorithm", key + ":value", "%s returns %s, the reference returns %s (%s)" % (name, v.get("term"), c["spec_rets"], v["detail"]), where=c["where"])
+            chk.violation("algorithm", key + ":value", "%s returns %s, the reference returns %s (%s)" % (name, v.get("term"), c["spec_rets"], v["detail"][:160]), where=c["where"])
             return 1
         else:
             und.append("returned value: %s" % v["detail"])
@@ -501,44 +722,21 @@ def judge(chk, key, c, res):
         chk.unproved_note("algorithm", key, "not decided: " + und[0])
         return 0
     if c.get("variant"):
-        # every path is selected by one enum variant and must return that variant's reference value
-        sty = None
-        nmr = None
-        ok = True
-        got = {}
-        for pi_, p in enumerate(summ["paths"]):
-            vl = [l for l in p["lits"] if l and l[0] == "variant"]
-            got[pi_] = (vl[0][2] if vl else None, rmap.get(pi_))
-        want = sorted(spec["variant_rules"].values())
-        have = sorted(v for _, v in got.values() if v is not None)
-        wantn = sorted(o[len("return "):] for o in want)
+        have = sorted(v for v in rmap.values() if v is not None)
+        wantn = sorted(o[len("return "):] for o in spec["variant_rules"].values())
         if have != wantn:
             chk.violation("algorithm", key, "%s: the variants return %s, the reference %s" % (name, have, wantn), where=c["where"])
         else:
             chk.ok("algorithm", key + ": one path per representation, returning " + " / ".join(have), nontrivial=True)
         return 1
     # B: decision functions over truth assignments of the reference's atoms
-    let = spec.get("let", {})
-    rules = spec["rules"]
+    let = c["let"]
     nsa = len(c["spec_atoms"])
-    cond_rules = []
-    ai = 0
-    for cond, out in rules:
-        if cond is None:
-            cond_rules.append((None, out))
-        else:
-            cond_rules.append((ai, out))
-            ai += 1
-
-    def spec_outcome(assign):
-        for a_i, out in cond_rules:
-            if a_i is None or assign[a_i]:
-                return "continue" if out == "continue" else frozenset(subst_let(alt.strip(), let) for alt in out[len("return "):].split(" || "))
-        return None
+    paths = summ["paths"]
 
     def impl_outcome(assign):
-        hits = []
-        for pi_, p in enumerate(summ["paths"]):
+        outs = set()
+        for pi_, p in enumerate(paths):
             okp = True
             for lit in p["lits"]:
                 if lit is None or lit[0] == "variant":
@@ -549,28 +747,23 @@ def judge(chk, key, c, res):
                 sa, swapped = amap[ia]
                 kind = summ["atoms"][ia][0]
                 val = assign[sa]
-                if kind == "eq":
-                    holds = val
-                else:
-                    # spec atom sa true means  A - B < 0 ; impl atom is the same difference or its negation
-                    holds = val if not swapped else not val
+                holds = val if (kind in ("eq", "flag") or kind.startswith("call:") or not swapped) else not val
                 if holds != truth:
                     okp = False
                     break
             if okp:
-                hits.append(pi_)
-        outs = set()
-        for pi_ in hits:
-            o = summ["paths"][pi_]["outcome"]
-            outs.add("continue" if o[0] == "continue" else rmap.get(pi_))
+                o = p["outcome"]
+                outs.add("continue" if o[0] == "continue" else rmap.get(pi_))
         return outs
 
     for assign in itertools.product((False, True), repeat=nsa):
-        so = spec_outcome(assign)
+        so = spec_eval(c["lists"], assign, let)
         io = impl_outcome(assign)
-        if not (io == {so} if not isinstance(so, frozenset) else (len(io) == 1 and next(iter(io)) in so)):
-            desc = ", ".join("%s: %s" % (rules_c, "true" if a_ else "false") for rules_c, a_ in zip([r_[0] for r_ in rules if r_[0]], assign))
-            chk.violation("algorithm", key + ":decision", "%s: when %s the reference gives `%s`, the implementation `%s`" % (name, desc or "(no test)", so, sorted(map(str, io))), where=c["where"])
+        same = (io == {so}) if not isinstance(so, frozenset) else (len(io) == 1 and next(iter(io)) in so)
+        if not same:
+            desc = "; ".join("%s: %s" % (cd[:60], "true" if a_ else "false") for cd, a_ in zip(conds, assign))
+            chk.violation("algorithm", key + ":decision", "%s: when %s the reference gives `%s`, the implementation `%s`" % (
+                name, desc or "(no test)", so if not isinstance(so, frozenset) else "return " + " || ".join(sorted(so)), sorted(map(str, io))), where=c["where"])
             return 1
     chk.ok("algorithm", "%s: %d comparison(s) matched, decision function equal on %d assignment(s), %d returned term(s) identical" % (key, len(amap), 2 ** nsa, len(rmap)), nontrivial=True)
     return 1
